@@ -320,4 +320,19 @@ def epa2ClosestPoints (supp1 supp2 : V2 K → V2 K) (fuel : Nat) (simplex : List
     | _, _, _, _, _, _ => .panic
   | _ => .panic
 
+/-- `contact_support_map_support_map(pos12, g1, g2, prediction)` (dim2) from the point where `gjk::closest_points` has
+answered `Intersection` on `simplex`: EPA, then `dist = (point2_1 - point1)·normal1`,
+`point2 = pos12⁻¹ · point2_1`, `normal2 = pos12⁻¹ · (-normal1)`; EPA's `None` becomes `NoIntersection` = `None`.
+Outer `none` = panic / fuel. -/
+def contactFromEpa2 (pos12 : Iso2 K) (supp1 supp2 : V2 K → V2 K) (fuel : Nat) (simplex : List (CSOPoint2 K)) :
+    Option (Option (Contact2 K)) :=
+  match epa2ClosestPoints supp1 supp2 fuel simplex with
+  | .some point1 point2_1 normal1 _ =>
+    let dist := (point2_1.sub point1).dot normal1
+    let point2 := pos12.invAct point2_1
+    let normal2 := pos12.invRot normal1.neg
+    some (some ⟨point1, point2, normal1, normal2, dist⟩)
+  | .none => some none
+  | _ => none
+
 end Model
